@@ -33,6 +33,10 @@ pub mod trackers;
 ///
 pub mod utils;
 
+/// Verification-only schedule points
+#[cfg(similari_verif)]
+pub mod verif_hooks;
+
 pub use track::store;
 pub use track::voting;
 
